@@ -509,10 +509,48 @@ class Program:
                 if hasattr(fn, "_alias_map"):
                     fn._alias_map = None
                 self.renamed_locals[name] = {o: nn for (o, nn) in ren.values()}
+        # a static helper that IS isspace() in the "C" locale - `return c == ' ' || c == '\t' || c == '\n' || c == '\v' || c == '\f' || c == '\r';`
+        # with all six - is read as isspace(): the rules then see the blank tests they know (an incomplete set stays a function of its own
+        # and is judged by parser.blank_set_rule)
+        self.blank_classifiers = {}
+        for tab in (self.functions, self.util_functions):
+            for name, fn in list(tab.items()):
+                if name in anchors or not fn.is_static or len(fn.params) != 1 or fn.body is None:
+                    continue
+                rets = [n for n in fn.nodes if n is not None and n.k == "ReturnStmt"]
+                stmts = [c for c in fn.body.children] if fn.body.k == "CompoundStmt" else [fn.body]
+                if len(rets) != 1 or len(stmts) != 1 or not rets[0].children:
+                    continue
+                chars, ok = set(), True
+
+                def parts(e):
+                    e2 = e.strip()
+                    if e2.k == "BinaryOperator" and e2.j.get("op") == "||":
+                        return parts(e2.children[0]) + parts(e2.children[1])
+                    return [e2]
+                for pt in parts(rets[0].children[0]):
+                    if pt.k == "BinaryOperator" and pt.j.get("op") == "==":
+                        a, b = pt.children[0].strip(), pt.children[1].strip()
+                        cv = b.const_value() if a.k == "DeclRefExpr" else (a.const_value() if b.k == "DeclRefExpr" else None)
+                        v = a if a.k == "DeclRefExpr" else b
+                        if isinstance(cv, int) and v.k == "DeclRefExpr" and v.j.get("name") == fn.params[0]["name"]:
+                            chars.add(cv)
+                            continue
+                    ok = False
+                if ok and chars == {32, 9, 10, 11, 12, 13}:
+                    self.blank_classifiers[name] = fn
+                    for fn2 in tab.values():
+                        for n2 in fn2.nodes:
+                            if n2 is None:
+                                continue
+                            if n2.k == "CallExpr" and n2.j.get("callee") == name:
+                                n2.j["callee"] = "isspace"
+                            elif n2.k == "DeclRefExpr" and n2.j.get("dk") == "func" and n2.j.get("name") == name:
+                                n2.j["name"] = "isspace"
         for tab in (self.functions, self.util_functions):
             helpers = {}
             for name, fn in tab.items():
-                if name in anchors or not fn.is_static or fn.file.endswith(".h"):
+                if name in anchors or not fn.is_static or fn.file.endswith(".h") or name in self.blank_classifiers:
                     continue
                 # address taken anywhere? then it is not a plain helper
                 taken = False
